@@ -96,8 +96,11 @@ def plan(prop, tier):
             p["deep"] += [dict(Max=m, Timeout=INF, MaxTicks=0, MaxOps=6, Width=4) for m in (0, 2, 3)]
             p["deep"] += [dict(Max=2, Timeout=1, MaxTicks=2, MaxOps=6, Width=3)]
         p["random"] = [("inf", 300 if q else 5000, 60 if q else 200)]
-        if prop in ("C01", "C02", "C03"):
+        if prop in ("C01", "C02", "C03", "C10"):
             p["random"].append(("timed", 60 if q else 1000, 40 if q else 80))
+        if prop == "C10":
+            # eviction "only for cause" has a timed cause as well: a few behaviours with ticks, replayed with real sleeps
+            p["dump"] += [dict(Max=1, Timeout=1, MaxTicks=2, MaxOps=4, Width=2)]
         p["only_ticked"] = False
     p["bases"] = 2 if q else 4
     p["sample"] = 50 if q else 20
